@@ -1282,7 +1282,8 @@ class C16(PropertyCheck):
                     continue
                 sig = sharing_signature(qc, r)
                 if name == "reverse_circuit":
-                    line = f"share cfg={S.cfg_str(cfg)} kind=rev ctrl={ctrl} plan=N"
+                    meas = ",".join(str(i) for i, g in enumerate(w["gates"]) if "M" in g)
+                    line = f"share cfg={S.cfg_str(cfg)} kind=rev ctrl={ctrl} plan=N" + (f" meas={meas}" if meas else "")
                     exp_len = k
                 elif name.startswith("to_chain_structure"):
                     plan = chain_plan(w, "linear" if name.endswith("linear") else "circular")
